@@ -96,9 +96,25 @@ impl<'a> Source<'a> {
         &items[self.below(items.len())]
     }
 
-    /// A permutation of 0..n driven by the source (identity for zero bytes).
+    /// A permutation of 0..n driven by the source (identity for zero bytes). Short permutations
+    /// take one choice per position; long ones (n > 24) would exhaust the byte string, so they
+    /// are expanded from a 32-bit seed read from the source (seed 0 = identity) - still a pure
+    /// function of the bytes.
     pub fn permutation(&mut self, n: usize) -> Vec<usize> {
         let mut v: Vec<usize> = (0..n).collect();
+        if n > 24 {
+            let seed = ((self.byte() as u64) << 24) | ((self.byte() as u64) << 16) | ((self.byte() as u64) << 8) | self.byte() as u64;
+            if seed == 0 {
+                return v;
+            }
+            let mut x = splitmix(seed);
+            for i in 0..n - 1 {
+                x = splitmix(x);
+                let j = i + (x % (n - i) as u64) as usize;
+                v.swap(i, j);
+            }
+            return v;
+        }
         // Fisher-Yates from the front; zero choices keep the identity
         for i in 0..n.saturating_sub(1) {
             let j = i + self.below(n - i);
